@@ -349,6 +349,20 @@ fn digests(seed: u64, scale: usize) {
     dig_proofs(scale);
 }
 
+/// Cheap kernels only (FFT / permute / power series / batch inversion / Merkle / matrix LDE on small sizes on both sides of
+/// the 1024 threshold): run for EVERY pool size 1..64, because some batch-arithmetic slips only show for particular
+/// non-power-of-two pool sizes (e.g. `n mod threads >= 33` at n = 1024; seeded change C14-m2).
+fn kernels(seed: u64) {
+    println!("I build concurrent={} threads={}", CONC, threads());
+    let mut r = Rng::new(seed);
+    dig_fft::<F64>("f64", &mut r, 12);
+    dig_fft::<F128>("f128", &mut r, 11);
+    dig_utils::<F64>("f64", &mut r, 1);
+    dig_merkle::<ToyHasher<F64>>("toy", 12);
+    dig_merkle::<Blake3_256<F64>>("blake3", 11);
+    dig_matrix::<F64, Blake3_256<F64>>("f64.blake3", &mut r, 1);
+}
+
 // ------------------------------------------------------------------------------------------------ spy hasher (Merkle tasks)
 /// Structural digest: (lo, hi) = the range of leaves covered, ok = built from two adjacent well-formed halves.
 #[derive(Debug, Default, Copy, Clone, Eq, PartialEq)]
@@ -688,6 +702,7 @@ fn main() {
     let n: usize = args.get(3).and_then(|s| s.parse().ok()).unwrap_or(1);
     match cmd {
         "digests" => digests(seed, n),
+        "kernels" => kernels(seed),
         "corr" => corr(seed, n),
         "falsify" => falsify(seed, n),
         _ => { eprintln!("usage: c14 digests|corr|falsify <seed> <n>"); std::process::exit(2); }
